@@ -610,8 +610,10 @@ class kMinPathError(pathmodel.AbstractPathModelDAG):
         non_empty_weights = []
         non_empty_slacks = []
         non_empty_scaled_slacks = []
-        for path, weight, slack, scaled_slack in zip(solution["paths"], solution["weights"], solution["slacks"], solution.get("scaled_slacks", solution["slacks"])):
-            if len(path) > 1:
+        # In node mode a path is empty iff its internal (node-expanded) path is: [v.0, v.1] condenses to the one-node path [v]
+        internal_paths = solution.get("_paths_internal", solution["paths"])
+        for path, internal_path, weight, slack, scaled_slack in zip(solution["paths"], internal_paths, solution["weights"], solution["slacks"], solution.get("scaled_slacks", solution["slacks"])):
+            if len(internal_path) > 1:
                 non_empty_paths.append(path)
                 non_empty_weights.append(weight)
                 non_empty_slacks.append(slack)
